@@ -34,7 +34,7 @@ def catalogue():
     for ndom in (1, 2, 3, 4):
         for names in (("sync", "pix", "aux", "b"), ("zeta", "alpha", "mid", "b2")):
             for hier in ("flat", "sub", "anon"):
-                for extra in ("none", "mem", "inst", "instclk", "instonly", "clash", "attrs"):
+                for extra in ("none", "mem", "inst", "instclk", "instonly", "clash", "attrs", "fsm"):
                     specs.append({"ndom": ndom, "names": names[:ndom], "hier": hier, "extra": extra})
     return specs
 
@@ -88,6 +88,25 @@ def build_design(spec):
         o = Signal(4, name="oattr")
         m.d.comb += o.eq(kind.as_value())
         outs.append(o)
+    if spec["extra"] == "fsm":
+        # an FSM in a fresh submodule is the first construct to name its domains: comb, the state register's domain and a third one
+        fm = Module()
+        m.submodules.fsm = fm
+        o = Signal(4, name="ofsm")
+        p_ = Signal(4, name="x")
+        q_ = Signal(4, name="x")
+        dom = spec["names"][-1]
+        with fm.FSM(domain=spec["names"][0], name="ctl"):
+            with fm.State("A"):
+                fm.d.comb += o.eq(data)
+                fm.d[dom] += p_.eq(p_ + 1)
+                with fm.If(data[0]):
+                    fm.next = "B"
+            with fm.State("B"):
+                fm.d.comb += o.eq(~data)
+                fm.d["zz_extra"] += q_.eq(q_ ^ data)
+                fm.next = "A"
+        outs += [o, p_, q_]
     if spec["extra"] == "instonly":
         # the instance is the ONLY user of an implicitly created domain (nothing else in the design names it)
         from amaranth.hdl import ClockSignal, ResetSignal
